@@ -101,10 +101,21 @@ def seq(world, seed, params):
     variant = params['variant']
     gen_kwargs, knobs = _swarm(rng, variant)
     n_ops = rng.choice(params.get('n_ops', [10, 25, 40, 60]))
+    # a third of the histories are served by TWO worker processes taking
+    # turns (only with default knobs: the peer has its own configuration)
+    two = rng.random() < 0.34
+    if two:
+        knobs = {}
     run = seqrun.SeqRun(world, seed, n_ops=n_ops, gen_kwargs=gen_kwargs,
-                        knobs=knobs)
+                        knobs=knobs, two_workers=two)
     findings = run.run()
-    return _seq_result(run, findings, params, knobs)
+    res = _seq_result(run, findings, params, knobs)
+    res['probes']['two_worker_histories'] = 1 if two else 0
+    res['probes']['requests_served_by_second_worker'] = \
+        run.stats.get('peer_requests', 0)
+    for f in res['findings']:
+        f['replay']['two_workers'] = two
+    return res
 
 
 def _seq_result(run, findings, params, knobs):
@@ -146,7 +157,9 @@ def seq_replay(world, rp):
         o['kind'] = _kind_of(o)
         ops.append(o)
     run = seqrun.SeqRun(world, 0, knobs=rp.get('knobs'), ops=ops,
-                        gen_kwargs={})
+                        gen_kwargs={}, two_workers=rp.get('two_workers',
+                                                          False))
+
     findings = run.run()
     return [f.to_json() for f in findings]
 
@@ -195,6 +208,14 @@ def _kind_of(op):
 
 PROFILES = {'seq': seq}
 REPLAYS = {'seq': seq_replay}
+
+
+def scale(world, seed, params):
+    from psim import scale as S
+    return S.scale_history(world, seed, params)
+
+
+PROFILES['scale'] = scale
 
 
 # ---------------------------------------------------------------------------
